@@ -643,7 +643,8 @@ pub fn check_generation(
                     // reported by C07's crash stream; here it only means that nothing can be judged on this image
                     ctx.stats.inc("images_not_openable");
                     // a store that cannot be opened has recovered neither the acknowledged commits (C02) nor any prefix (C03)
-                    if !known_f03 || std::env::var("VERIF_CRASH_OPEN_FAIL_IS_FAILURE").is_ok() {
+                    let _ = known_f03; // (F03 is fixed: no leniency for the stream that lets a commit's apply rotate the memtable)
+                    {
                         return Err(fail("image-not-openable", format!("{what}: {e}"), aux));
                     }
                     ctx.stats.add("n_images_not_openable", 1);
@@ -932,7 +933,7 @@ pub fn crash_prop(id: &'static str, judge: Judge, stride: u16, arena_full: bool)
             "recorder shim/iotrace.c (LD_PRELOAD) sees every file operation of the single-threaded workload process; the image builder harness/src/engine_crash.rs is the trusted base".into(),
             "power-loss model: namespace operations (create, rename, unlink, mkdir) survive in order; per file only fsynced bytes are guaranteed; an unsynced appended tail survives wholly, not at all, or torn inside the last write; no zero-filled holes, no reordering".into(),
             "images that cannot be opened are counted (coverage.totals.n_images_not_openable) and left to C07".into(),
-            "main stream keeps the active memtable from filling up inside a commit (known finding F03); the sub-stream that allows it is classified".into(),
+            "the main stream rotates pre-emptively so that a commit's apply rarely hits a full memtable; a sub-stream lets it happen all the time (this is where F03, now fixed, lived)".into(),
         ],
         strategy: Arc::new(move || crash_strategy(stride, arena_full)),
         run: Arc::new(move |c: &CrashCase, d: &Path| run_crash_case(c, d, judge)),
